@@ -188,6 +188,20 @@ WellFormed(t) == t.a /\ t.u # {}
 \* over-approximation: "is not sufficient to know that using that sizing mode will work")
 OverClaimed(t) == t.s \ t.u
 
+(* ---- how a Columns shares out the width it is given (C01) --------------------------------- *)
+\* What the constructor documentation fixes, as a predicate over the widths the implementation really used
+\* (w[i]: the columns of the canvas child i was rendered to, 0 = child i is not shown): the shown columns and the
+\* `dividechars` blanks between them fit into the width given; a shown GIVEN column has its given width; a shown WEIGHT
+\* column is at least `min_width` wide.  How the rest is divided among the weights is left to the implementation
+\* (spec/WidgetTree.tla holds a reference share-out that satisfies this predicate and a wrong one that does not).
+ShownCols(w) == {i \in 1..Len(w) : w[i] > 0}
+ColumnsFit(dc, w, maxcol) == LET n == Cardinality(ShownCols(w)) IN SumSeq(w) + dc * (IF n > 0 THEN n - 1 ELSE 0) <= maxcol
+ColumnsLayoutOK(o, w, maxcol) ==
+  /\ Len(w) = Len(o[4])
+  /\ ColumnsFit(o[1], w, maxcol)
+  /\ \A i \in ShownCols(w) : /\ (o[4][i][1] = "given" => w[i] = o[4][i][2])
+                             /\ (o[4][i][1] = "weight" => w[i] >= o[2])
+
 (* ---- geometry (C09): rectangles of painted ids in a grid ---------------------------------- *)
 \* grid: sequence of rows, each a sequence of ids (0 = nothing identifiable painted)
 GridRows(g) == Len(g)
